@@ -2,7 +2,7 @@
 
 Extends the statement-level translation of T9 (translator/t9_circuit_core.py: same state type, same helper
 vocabulary, same aliasing discipline; read its header first) by the constructs the remaining methods of the
-Circuit class use.  Every function of ALGOS becomes `gen_<name>` in Generated/CircuitAlgos.v (which imports
+Circuit class use (and validation.check_circuit_has_no_cycles).  Every function of ALGOS becomes `gen_<name>` in Generated/CircuitAlgos.v (which imports
 Generated/CircuitCore.v: the functions of T9 are used, not re-emitted); Proofs/CircuitAlgosGen*.v prove each
 of them equal to the hand model (Model/Traverse.v, Eval.v, Connect.v, Circuit.v).  Anything outside the grammar
 raises TranslatorError (the check fails closed).  ALGOS is the fixed list of functions that must translate.
@@ -49,7 +49,39 @@ Additional grammar (on top of T9):
                g.operator(*(d[o] for o in g.operands))  ->  gate_operator g (Err GateTypeNoOperatorError for INPUT,
                evaluated first, as in Python), then the operand values, then Generated.GateTypes.operator_of,
                [list(i) for i in zip(*(E for x in itertools.product((False, True), repeat=n)))]
-                  ->  rows := mapM (fun x => E) (Eval.all_bool_vectors n) ; zip_star rows   (list(x) = map inj x).
+                  ->  rows := mapM (fun x => E) (Eval.all_bool_vectors n) ; zip_star rows   (list(x) = map inj x);
+               `for x in itertools.product((False, True), repeat=n)`, zip(<labels>, <bools>) as the iterable of a dict
+               comprehension; n + m on lengths; a | b on local dicts (dict_union); list(d) = the keys;
+               f-strings over strings, '<sep>'.join(<strings>), g.format_gate() (= Generated.BenchDispatch.format_gate,
+               regenerated from gate.py by translator T7).
+  defaultdict  collections.defaultdict(list) with d[k].append(v) (ddict_append; the element type is fixed by the first
+               append), d.items(); a list taken out of such a local dict may be stored into the state (nobody else
+               holds it); self._gate_to_users[k].extend(l).
+  uuid         uuid.uuid4().hex is the next element of the parameter `fresh : list string` (Err OutOfFuel when the
+               stream is empty); convert_gate(g, self) of converters.py is Generated.Converters.generated_convert_gate
+               (translator T6), which takes one element of the stream for the rules that call uuid4
+               (generated_needs_fresh): prelude function convert_gate_fresh.
+  mutators     `x = self.<mutator that returns a Block>(...)` binds the new state and the Block;
+               `return self.<such a mutator>(...)` passes the pair on.
+  traversal    (_traverse_circuit, dfs, bfs, validation.check_circuit_has_no_cycles)
+               parameters of type TraverseMode (tmode); TraverseMode.X / TraverseState.X are the constructors of
+               Model/Traverse.v (the two enums of circuit.py are checked against them);
+               hook parameters (TraverseHookT / TraverseStateHookT, default `lambda ...: None`) are NOT values: a
+               call `on_enter_hook(g, states)` appends the event EvEnter <label of g> to the log (EvDiscover with the
+               state of the gate, EvExit, EvUnvisited, EvEnd likewise), `yield g` appends EvYield; the generated
+               function returns the log.  on_discover_hook may raise: parameter `abort : label -> tstate -> option err`
+               (hook_discover).  A call that forwards the hooks (`on_enter_hook=on_enter_hook, ...`) passes `abort`
+               on; a local `def on_discover_hook(gate, gate_states): if gate_states[gate.label] == TraverseState.X:
+               raise E(...)` is the function `fun _ s => if s = X then Some E else None`;
+               `gate_states = collections.defaultdict(lambda: TraverseState.UNVISITED)`: a `dict tstate` read with
+               state_of (the insertion of the default on a read is not modelled);
+               a name first bound in every branch of an if / elif / else chain whose other branches raise
+               (`pop_index`, `queue`): `do x <- if .. then Ok e1 else if .. then Ok e2 else Err E`;
+               `if <test over parameters>: def f(p): ... else: def f(q): ...` with `nonlocal`: f(e) is expanded in
+               place to `if <test> then <body 1> else <body 2>` acting on the caller's variables;
+               l[i] / l.pop(i) for an int variable i (list_index / list_pop_at: Python indexing, negative from the end);
+               more_itertools.consume(<generator call>) runs the generator; a local
+               `from cirbo.core.circuit.circuit import TraverseState`.
 """
 import ast
 import re
